@@ -2,7 +2,7 @@
    mutatePaths (on apkfs.NewMemFS() and tarfs.New()), compared with the model
    and judged by the validators of Spec/AccountsSpec.v and Spec/PathMutSpec.v. *)
 From Apko Require Export Base.Prelude Model.C13Fs Model.Accounts Model.PathMut Model.C13Build Generated.C13Consts Spec.AccountsSpec Spec.PathMutSpec.
-From Apko Require Import Proofs.AccountsCodec Proofs.AccountsParsed.
+From Apko Require Import Proofs.AccountsCodec Spec.AccountsClean.
 Open Scope string_scope. Open Scope list_scope.
 
 (* ---- building the initial tree: the same calls on both sides -------------- *)
